@@ -40,18 +40,18 @@ func families(tier string) []family {
 		snappyMax = 8 << 20
 	}
 	return []family{
-		{"tsd", "tsd", 160_000, 8_000_000, 32, 8, 100, caseTSD},
-		{"tsdpool", "tsdpool", 6_000, 300_000, 16, 4, 40, caseTSDPool},
-		{"tsdstream", "tsdstream", 12_000, 600_000, 8, 2, 40, caseTSDStream},
-		{"xor", "xor", 40_000, 2_000_000, 8, 2, 40, caseXOR},
-		{"xorref", "xorref", 30_000, 1_500_000, 8, 2, 40, caseXORRef},
-		{"delta", "delta", 40_000, 2_000_000, 8, 2, 40, caseDelta},
-		{"fixedoffset", "fixedoffset", 30_000, 1_500_000, 8, 2, 40, caseFixedOffset},
-		{"bitmap", "bitmap", 6_000, 300_000, 16, 2, 40, caseBitmap},
-		{"bitrw", "bitrw", 40_000, 2_000_000, 8, 2, 40, caseBitRW},
-		{"snappy", "snappy", 1_500, 40_000, 16, 2, 40, func(ks *kase) { caseSnappy(ks, snappyMax) }},
-		{"stream", "stream", 40_000, 2_000_000, 8, 2, 40, caseStream},
-		{"utils", "utils", 40_000, 2_000_000, 4, 1, 40, caseUtils},
+		{"tsd", "tsd", 160_000, 5_000_000, 32, 8, 100, caseTSD},
+		{"tsdpool", "tsdpool", 6_000, 200_000, 16, 4, 40, caseTSDPool},
+		{"tsdstream", "tsdstream", 12_000, 400_000, 8, 2, 40, caseTSDStream},
+		{"xor", "xor", 40_000, 1_200_000, 8, 2, 40, caseXOR},
+		{"xorref", "xorref", 30_000, 1_000_000, 8, 2, 40, caseXORRef},
+		{"delta", "delta", 40_000, 1_200_000, 8, 2, 40, caseDelta},
+		{"fixedoffset", "fixedoffset", 30_000, 1_000_000, 8, 2, 40, caseFixedOffset},
+		{"bitmap", "bitmap", 6_000, 200_000, 16, 2, 40, caseBitmap},
+		{"bitrw", "bitrw", 40_000, 1_200_000, 8, 2, 40, caseBitRW},
+		{"snappy", "snappy", 1_500, 25_000, 16, 2, 40, func(ks *kase) { caseSnappy(ks, snappyMax) }},
+		{"stream", "stream", 40_000, 1_200_000, 8, 2, 40, caseStream},
+		{"utils", "utils", 40_000, 1_200_000, 4, 1, 40, caseUtils},
 		{"edge", "edge", 14, 140, 1, 1, 2, caseEdge},
 	}
 }
@@ -205,7 +205,17 @@ func parentMain() {
 	scratch := c.Scratch()
 	fams := families(c.Tier)
 	var tasks []task
+	// VERIF_C14_SCALE (percent, development only): shrinks the thorough case counts to try the thorough code path on a
+	// busy machine; recorded in the evidence. Unset = 100: counts are a function of (seed, tier) only.
+	scale := 100
+	if v, err := strconv.Atoi(os.Getenv("VERIF_C14_SCALE")); err == nil && v > 0 && v < 100 && !c.Quick() {
+		scale = v
+		c.Set("dev_scale_percent", v)
+	}
 	add := func(name string, n, batches int, mode, bin string) {
+		if scale != 100 && n > 100 {
+			n = n * scale / 100
+		}
 		if n <= 0 {
 			return
 		}
@@ -222,7 +232,7 @@ func parentMain() {
 		c.Inconclusive("VERIF_RACE_BIN not set: the concurrent pool histories need the -race build (cmd/c14/RACE)")
 	} else {
 		// concurrent pool histories under the race detector, then a slice of every family (checkptr comes with -race)
-		add("conc", c.Pick(2400, 120_000), c.Pick(6, 48), "race", raceBin)
+		add("conc", c.Pick(2400, 80_000), c.Pick(6, 48), "race", raceBin)
 		for _, f := range fams {
 			if f.raceFrac > 0 {
 				add(f.name, c.Pick(f.quick/f.raceFrac, f.quick), c.Pick(f.raceBatches, 4*f.raceBatches), "race", raceBin)
@@ -250,7 +260,7 @@ func parentMain() {
 		add(f.name, n, c.Pick(f.batches, f.batches*4), "plain", "")
 	}
 	// also run the concurrent histories without the race detector (more histories per second, result comparison only)
-	add("conc", c.Pick(16_000, 800_000), c.Pick(8, 64), "plain", "")
+	add("conc", c.Pick(16_000, 500_000), c.Pick(8, 64), "plain", "")
 
 	timeout := time.Duration(c.Pick(240, 4200)) * time.Second
 	outs := make([]*taskOut, len(tasks))
@@ -308,7 +318,8 @@ func parentMain() {
 			c.Nontrivial(key)
 		}
 		ntTotal += o.res.NTTotal
-		if !sampled[o.t.family] && len(o.res.Samples) > 0 && (o.t.family == "tsd") {
+		if !sampled[o.t.family] && len(o.res.Samples) > 0 && o.t.mode == "plain" &&
+			(o.t.family == "tsd" || o.t.family == "tsdpool" || o.t.family == "fixedoffset" || o.t.family == "snappy") {
 			sampled[o.t.family] = true
 			c.Sample(o.res.Samples[0])
 		}
